@@ -221,3 +221,76 @@ class RE:
     @staticmethod
     def compile(pattern, flags=0):
         return _Pattern(pattern, flags)
+
+
+# ------------------------------------------------------------------------------------------------ series level
+def _full_series(vals, nulls, name, dtype):
+    import symframe
+
+    return symframe.Series(vals, nulls=nulls, name=name, dtype=dtype)
+
+
+class SymSeriesStrategy:
+    """hypothesis.extra.pandas.series(...) by its documented contract: a series of `size` elements, each drawn from the
+    elements strategy (independently; pairwise distinct when unique=True); .filter(p) runs the REAL predicate on the symbolic
+    series, .map(f) applies the REAL function to it"""
+
+    def __init__(self, series, cons):
+        self.series, self.cons = series, list(cons)
+
+    def filter(self, pred):
+        r = pred(self.series)
+        c = r.z if isinstance(r, SymBool) else z3.BoolVal(bool(r))
+        return SymSeriesStrategy(self.series, self.cons + [c])
+
+    def map(self, f):
+        return SymSeriesStrategy(f(self.series), self.cons)
+
+    def validate(self):
+        return None
+
+
+class PDST:
+    @staticmethod
+    def range_indexes(min_size=0, max_size=None):
+        if max_size is None or min_size != max_size:
+            raise ModelGap("range_indexes without a fixed size")
+        return ("range_index", int(max_size))
+
+    @staticmethod
+    def series(elements=None, dtype=None, index=None, unique=False, **kw):
+        if not isinstance(elements, SymStrategy) or not isinstance(index, tuple):
+            raise ModelGap("pdst.series arguments")
+        elements.validate()
+        n = index[1]
+        xs, cons = [], []
+        for i in range(n):
+            xi = fresh(elements.x.sort())
+            xs.append(xi)
+            cons += [z3.substitute(c, (elements.x, xi)) for c in elements.cons]
+        if unique and n > 1:
+            cons.append(z3.Distinct(*xs))
+        dt = np.dtype(dtype) if dtype is not None else np.dtype(object)
+        if dt.kind in "US":
+            dt = np.dtype(object)
+        return SymSeriesStrategy(_full_series(xs, [z3.BoolVal(False)] * n, None, dt), cons)
+
+    def __getattr__(self, name):
+        raise ModelGap(f"hypothesis.extra.pandas.{name} not modelled")
+
+
+def null_field_masks_stub(strategy, unique=False):
+    """pandera.strategies.pandas_strategies.null_field_masks by its documented contract: every element of the drawn series may
+    independently be replaced by a null (at most one element when the values have to be unique)"""
+    if not isinstance(strategy, SymSeriesStrategy):
+        raise ModelGap("null_field_masks of a non-series strategy")
+    s = strategy.series
+    n = len(s.vals)
+    masks = [z3.Bool(f"nullmask{i}") for i in range(n)]
+    out = s._new(nulls=[z3.Or(a, m) for a, m in zip(s.nulls, masks)])
+    extra = []
+    if isinstance(unique, SymBool):
+        extra = [z3.Implies(unique.z, z3.AtMost(*masks, 1))] if n > 1 else []
+    elif unique and n > 1:
+        extra = [z3.AtMost(*masks, 1)]
+    return SymSeriesStrategy(out, strategy.cons + extra)
